@@ -61,6 +61,8 @@ type State struct {
 	lockDepth int
 	ufApps   []*Term
 	b64      []b64Pair
+	globalOf map[int]string // after init: heap objects reachable from package-level variables -> variable name
+	gwrites  map[string]bool // package-level variables (or objects reachable from them) written after init
 	watched  map[int]bool // map objects whose accesses are checked against the lock-state counters
 	facts    map[*Term]bool // Bool terms decided on this path (used to fold map-key comparisons)
 }
@@ -126,6 +128,17 @@ func (st *State) hset(id int, v Value) {
 		ch = n
 	}
 	ch.v[id%chunkSize] = v
+	if st.globalOf != nil {
+		if name, ok := st.globalOf[id]; ok && !st.gwrites[name] {
+			// copy on write: the set is shared between forks
+			n := make(map[string]bool, len(st.gwrites)+1)
+			for k := range st.gwrites {
+				n[k] = true
+			}
+			n[name] = true
+			st.gwrites = n
+		}
+	}
 }
 
 func (st *State) top() *Frame {
